@@ -331,6 +331,34 @@ def oracle_concat(run, c, actual_rc, actual_out):
     return ok, exp, rc_exp, {"multi_later": multi_later}
 
 
+# other input formats: files are processed one after the other with ONE decoder instance (Init per file)
+SWEEP = {
+    "json": ['{"a": 1}\n{"a": 2}\n', '{"b": [1, 2]}\n', '{"c": null}\n'],
+    "props": ["a = 1\n", "b.c = 2\n", "d = x\n"],
+    "csv": ["a,b\n1,2\n", "a\n3\n", "c\n4\n"],
+    "xml": ["<a>1</a>", "<b><c>2</c></b>", "<d>3</d>"],
+    "toml": ["a = 1\n", "b = 2\n", "[c]\nd = 3\n"],
+    "lua": ["return {a=1}\n", "return {b=2}\n", "return {c=3}\n"],
+}
+
+
+def format_sweep(run):
+    """(format, nfiles, ok, got, expected) for 2 and 3 files of every other input format"""
+    res = []
+    for fmt, texts in SWEEP.items():
+        singles = []
+        for t in texts:
+            rc, out, _ = run.run_files([t], lambda names: ["e", "-p=" + fmt, "-o=yaml", "."] + names)
+            singles.append(out if rc == 0 else None)
+        for n in (2, 3):
+            rc, out, _ = run.run_files(texts[:n], lambda names: ["e", "-p=" + fmt, "-o=yaml", "."] + names)
+            if any(x is None for x in singles[:n]):
+                continue
+            exp = b"---\n".join(x for x in singles[:n] if x)
+            res.append((fmt, n, rc == 0 and out == exp, out, exp))
+    return res
+
+
 def uses_index(c):
     return any(SEL[s][2] != "b" for s in c["sels"])
 
@@ -364,6 +392,8 @@ def replay(rp):
     root = tempfile.mkdtemp(prefix="c10r_", dir=vlib.WORK)
     try:
         run = Runner(root)
+        if rp.get("kind") == "sweep":
+            return all(ok_ for fmt, n, ok_, _, _ in format_sweep(run) if fmt == rp.get("format"))
         c = rp.get("case")
         if not c:
             return False
@@ -378,6 +408,8 @@ def replay(rp):
             c2 = dict(c, mode="e")
             rc2, out2, _ = run_case(run, c2)
             return out == out2 and (rc == 0) == (rc2 == 0)
+        if kind == "sweep":
+            return all(ok_ for fmt, n, ok_, _, _ in format_sweep(run) if fmt == rp.get("format"))
         if kind == "identity":
             docs, failed = docs_of(c)
             return len(out.splitlines()) == max(1, len(docs))
@@ -538,6 +570,19 @@ def run(chk):
                 if nviol <= 5:
                     chk.violation({"kind": "identity", "case": c, "stdout": out.decode("utf-8", "replace")}, True,
                                   "identity over N documents does not give N JSON documents")
+        # --- other input formats, several files
+        sweep = format_sweep(run_)
+        for fmt, n, ok_, got, exp in sweep:
+            chk.count(("sweep", fmt, n), nontrivial=True)
+            if not ok_:
+                if fmt in ("toml", "lua") and exp.startswith(got) and chk.is_known("toml-lua-later-files"):
+                    n_known["toml-lua-later-files"] = n_known.get("toml-lua-later-files", 0) + 1
+                    chk.known_finding("toml-lua-later-files", "yq -p=%s over %d files" % (fmt, n))
+                    continue
+                chk.violation({"kind": "sweep", "format": fmt, "files": SWEEP[fmt][:n], "stdout": got.decode("utf-8", "replace"),
+                               "expected_join_of_single_runs": exp.decode("utf-8", "replace")}, True,
+                              "-p=%s over %d files is not the concatenation of the single-file runs" % (fmt, n))
+        chk.extra["format_sweep"] = {"%s/%d" % (f, n): o for f, n, o, _, _ in sweep}
         chk.extra["known_counts"] = n_known
         chk.extra["single_document_measurements"] = len(run_.single)
         chk.extra["oracle_runs"] = {k: sum(1 for r in orr if k in r) for k in ("concat", "indices", "ea_single", "identity")}
